@@ -31,8 +31,10 @@ _kind_counter = [0]
 
 
 def injected(tag):
+    # consecutive faults are alternately of the same kind and of different kinds (two faults of one kind and text are
+    # still two faults)
     _kind_counter[0] += 1
-    return _KINDS[_kind_counter[0] % len(_KINDS)](tag)
+    return _KINDS[(_kind_counter[0] // 2) % len(_KINDS)](tag)
 
 
 class W:
